@@ -124,6 +124,9 @@ def _space():
                     for c in range(-2, 3):
                         for side in ("rhs", "lhs"):
                             out.append(dict(form="for1", n=n, lo=lo, hi=hi, st=step, c=c, side=side))
+                            if step == 1:
+                                # descending subscript (n + 1 + c) - i: index values are not monotone increasing
+                                out.append(dict(form="for1", n=n, lo=lo, hi=hi, st=step, c=c, side=side, desc=1))
     sp["for1"] = out
     out = []
     for n, m in itertools.product(range(1, 4), range(1, 4)):
@@ -135,6 +138,8 @@ def _space():
                         for o in range(0, other + 2):
                             for side in ("rhs", "lhs"):
                                 out.append(dict(form="for2", n=n, m=m, pos=pos, lo=lo, hi=hi, c=c, o=o, side=side))
+                                if 1 <= o <= other and side == "rhs":
+                                    out.append(dict(form="for2", n=n, m=m, pos=pos, lo=lo, hi=hi, c=c, o=o, side=side, desc=1))
     sp["for2"] = out
     out = []
     for s in SPELLS:
@@ -333,22 +338,29 @@ def build(case):
         step = case.get("st", 1)
         vals = sel_range(lo, step, hi)
         empty = not vals
+        desc = case.get("desc", 0)
         if f == "for1":
             n = d = case["n"]
-            name, sub, sub_e, form = "x", off(c), [off_e(c)], "for_index"
+            K = n + 1 + c
+            ot, oe = (off(c), off_e(c)) if not desc else ("%d - i" % K, ["bin", "-", ["int", K], ["var", "i"]])
+            name, sub, sub_e, form = "x", ot, [oe], "for_index"
             const_ok = True
             B.var("x", [n])
             labels += ["n=%d" % n]
         else:
             n, m, pos, o = case["n"], case["m"], case["pos"], case["o"]
             d, other = (n, m) if pos == 0 else (m, n)
+            K = d + 1 + c
+            ot, oe = (off(c), off_e(c)) if not desc else ("%d - i" % K, ["bin", "-", ["int", K], ["var", "i"]])
             name, form = "A", "for_index_rows" if pos == 0 else "for_index_cols"
-            sub = "%s,%d" % (off(c), o) if pos == 0 else "%d,%s" % (o, off(c))
-            sub_e = [off_e(c), ["int", o]] if pos == 0 else [["int", o], off_e(c)]
+            sub = "%s,%d" % (ot, o) if pos == 0 else "%d,%s" % (o, ot)
+            sub_e = [oe, ["int", o]] if pos == 0 else [["int", o], oe]
             const_ok = 1 <= o <= other
             B.var("A", [n, m])
             labels += ["shape=%dx%d" % (n, m)]
-        idx_vals = [i + c for i in vals]
+        idx_vals = [i + c for i in vals] if not desc else [K - i for i in vals]
+        if desc:
+            labels.append("descending_index")
         ysize = max(1, hi - lo + 1)
         c2 = 1 - lo
         B.var("y", [ysize])
